@@ -695,7 +695,8 @@ class Sandbox:
         if self.tool == "ninja":
             args = ["-j%d" % jobs] + (["-k", str(keep_going)] if keep_going is not None else [])
             return build(self.llb, self.d, args, tool="ninja")
-        args = ["-j%d" % jobs] + ([] if db else ["--no-db"]) + (["-k", str(keep_going)] if keep_going is not None else [])
+        dbargs = ["--no-db"] if not db else (["--db", "my.db"] if db == "path" else [])
+        args = ["-j%d" % jobs] + dbargs + (["-k", str(keep_going)] if keep_going is not None else [])
         return build(self.llb, self.d, args)
 
     def contents(self, nodes):
@@ -924,12 +925,12 @@ def history(llb, d, seed, jobs, db, keep_going, with_ninja, want_clean):
             # generator commands decide on timestamps alone and must not run
             # a generator command runs only if one of its explicit/implicit inputs was re-written by a command that ran
             reach = w.reachable()
-            tainted = alias_tainted()
+            direct = set(c.name for c in w.cmds if any(i in w.phony for i in c.exp + c.imp))    # an alias input always forces the run
             touched, must = set(), []
             for c in w.cmds:
                 if c not in reach:
                     continue
-                runs = c.kind != "generator" or c.name in tainted or any(i in touched for i in c.exp + c.imp)
+                runs = c.kind != "generator" or c.name in direct or any(i in touched for i in c.exp + c.imp)
                 if runs:
                     must.append(c.name)
                     if c.kind != "restat":
@@ -1202,6 +1203,8 @@ def run_histories(chk, llb, base):
         seed = rng.getrandbits(40)
         jobs = 1 if i % 2 == 0 else 4
         db = (i % 4 != 3)
+        if db and i % 8 == 2:
+            db = "path"          # --db <path> instead of the default build.db
         kg = [None, None, None, 0, None, 2][i % 6]
         plans.append((i, seed, jobs, db, kg, (i % 4 == 0 and db), (i % 5 == 0)))
 
@@ -1245,12 +1248,16 @@ def run_histories(chk, llb, base):
 
 
 def run(chk):
-    llb = vlib.llbuild_bin()
+    shared = vlib.llbuild_bin()
     model = vlib.model_bin(AREA)
     chk.proof_gate()
     base = os.path.join(vlib.WORK, "tmp", "c18")
     shutil.rmtree(base, ignore_errors=True)
     os.makedirs(base)
+    # a private copy of the binary: other checks rebuild and re-link the shared one while this check runs
+    llb = os.path.join(base, "llbuild")
+    with vlib.Lock("build-hooks"):
+        shutil.copy2(shared, llb)
     ok_table = run_table(chk, llb, model, os.path.join(base, "table"))
     sf, ns = scripted(llb, os.path.join(base, "scripted"))
     for (key, what, rpd) in sf:
